@@ -556,4 +556,11 @@ def r13_task_identity(ctx):
 FIXTURES = dict(globals().get("FIXTURES", {}), r13_task_identity={"dir": "c11_r13", "expect_construct": "#task-key"})
 
 
-RULES = [r13_task_identity, r12_each_target_has_its_own_processor, r10_reported_champions, r11_fitness_and_resimulation_agree, r9_resimulated_data_layout, r8_builtin_formulas, r1_extent_check, r2_upper_bound, r3_same_range_both_sides, r4_accumulation_and_pairing, r5_weights_reach_function, r6_builtins_use_inputs, r7_checks_precede_optimiser]
+def r14_targets_are_read_afresh(ctx):
+    """"Applied to ... the target data": the target and weight files are read when the problem is built - no file reader on that path is memoised on the file NAME alone (a regenerated file would still give the old targets; shared with C20.R1)."""
+    from props.C20 import r1_no_stale_cache
+
+    r1_no_stale_cache(ctx)
+
+
+RULES = [r14_targets_are_read_afresh, r13_task_identity, r12_each_target_has_its_own_processor, r10_reported_champions, r11_fitness_and_resimulation_agree, r9_resimulated_data_layout, r8_builtin_formulas, r1_extent_check, r2_upper_bound, r3_same_range_both_sides, r4_accumulation_and_pairing, r5_weights_reach_function, r6_builtins_use_inputs, r7_checks_precede_optimiser]
